@@ -266,8 +266,8 @@ def expm(mat):
     matnorm = xp.linalg.norm(mat)
     if xp.isclose(matnorm, 0):
         return xp.broadcast_to(xp.eye(mat.shape[-1]), mat.shape).copy()
-    elif xp.allclose(mat, tra(mat).conj()):
-        # hermician/symmetric
+    elif xp.array_equal(mat, tra(mat).conj()):
+        # hermician/symmetric (exactly: eigh ignores a small anti-hermitian part, e.g. a chemical shift under fast exchange)
         evals, evecs = xp.linalg.eigh(mat / matnorm)
     else:
         # default
